@@ -10,10 +10,10 @@ let run toks =
   let c = cur_of toks in
   match next c with
   | "parse" -> show (get (parse_smt_literal (cword c)))
-  | "display" -> show (display (from_slice (cword c)))
+  | "display" -> show (smt_display (from_slice (cword c)))
   | "roundtrip" ->
       let s = from_slice (cword c) in
-      show (get (parse_smt_literal (undouble (body (display s)))))
+      show (get (parse_smt_literal (lit_undouble (lit_body (smt_display s)))))
   | "char_to_smt" -> show (char_to_smt (cn c))
   | "smt_char_as_string" -> show (smt_char_as_string (cn c))
   | "from_str" | "from_string" -> flag (from_str (cword c))
